@@ -82,13 +82,14 @@ CapExit ==
   /\ Is("CapExit") /\ pc = "incap" /\ Ev.px = px
   /\ Ev.restored                                                    \* stdout is the original object again, whatever happened
   /\ nlog' = nlog + 1
-  /\ IF Ev.exc = "none"
+  /\ IF Ev.internal THEN nun' = nun /\ pc' = "internal"              \* the capture's own bookkeeping raised (DocRun: Internal, observation O6)
+     ELSE IF Ev.exc = "none"
      THEN IF want THEN (IF ign THEN nun' = 0 /\ pc' = "loop" ELSE nun' = nun /\ pc' = "check")
                   ELSE nun' = nun + 1 /\ pc' = "loop"
      ELSE /\ nun' = nun
           /\ IF Ev.base \/ Ev.exc \in {"ExitTestException", "Skipped"} THEN pc' = "broke"           \* graceful exit or propagating BaseException
              ELSE IF want THEN pc' = "exccheck" ELSE pc' = "fail"
-  /\ failed' = (failed \/ (Ev.exc # "none" /\ ~Ev.base /\ Ev.exc \notin {"ExitTestException", "Skipped"} /\ ~want))
+  /\ failed' = (failed \/ (~Ev.internal /\ Ev.exc # "none" /\ ~Ev.base /\ Ev.exc \notin {"ExitTestException", "Skipped"} /\ ~want))
   /\ l' = l + 1 /\ UNCHANGED <<px, nsk, imported, want, ign, ginit, gsk, gnr, np, onerr, mode, early>>
 
 Check ==
@@ -128,6 +129,7 @@ RunExit ==
      \/ pc = "fail" /\ onerr = "raise" /\ Ev.kind = "raise"
      \/ pc = "capenter" /\ onerr = "raise" /\ Ev.kind = "raise"
      \/ pc = "broke" /\ Ev.kind = "raise"                                       \* SystemExit / KeyboardInterrupt propagate
+     \/ pc = "internal" /\ Ev.kind = "raise"                                    \* "Could not clean traceback", whatever on_error says
      \/ pc = "loop" /\ px = np - 1 /\ nsk = np /\ mode = "pytest" /\ Ev.kind = "raise" /\ Ev.exc = "Skipped"
   /\ pc' = "idle" /\ l' = l + 1
   /\ UNCHANGED <<px, nun, nsk, nlog, imported, failed, want, ign, ginit, gsk, gnr, np, onerr, mode, early>>
